@@ -3,6 +3,7 @@ package pass1
 import (
 	"fmt"
 	"log"
+	"strings"
 
 	"github.com/HobbyOSs/gosk/internal/ast"
 	"github.com/HobbyOSs/gosk/pkg/ng_operand"
@@ -44,6 +45,10 @@ func processPushPopCommon(env *Pass1, operands []ast.Exp, instName string) {
 		log.Printf("Error finding min output size for %s %s: %v", instName, operandString, err)
 		// Assume default size or handle error appropriately
 		size = 1 // Default size assumption, might need refinement
+	}
+	// codegen (handlePUSH/handlePOP) が出力する長さに合わせる
+	if up := strings.ToUpper(operandString); up == "FS" || up == "GS" {
+		size = 2 // 0F A0/A1/A8/A9
 	}
 	env.LOC += int32(size)
 
